@@ -11,7 +11,7 @@ evaluation F(z) by bracket search, own inversion that knows plateaus.
   monotone    z non-decreasing in u at fixed (E, beta)
   low         beta < min uses the minimum-angle distribution
   high        beta > max gives a negligible (0 < z <= 1e-5), finite energy
-  reject      an out-of-table energy raises (event angle <= max)
+  reject      an out-of-table energy raises (every angle; Taus.tau_energy and grid_cdf_sampler)
   explicit    explicit u == internal generator fed the same numbers (constant RNG stub on
               mixed batches of every size; RNG spy on single-event calls)
 """
@@ -333,6 +333,22 @@ def run(ctx):
                     ctx.violation("reject", f"table v{version}: single event with energy logE={badE!r} outside the table accepted (beta={bb!r}), E_tau={np.asarray(r)[0]!r}", {"version": version, "loge": repr(badE), "beta": float(bb), "single": True})
                 except Exception:
                     pass
+        # the sampler boundary itself (grid_cdf_sampler is an observation point of the property): one stray
+        # energy among in-table ones, at every position incl. the second 8192-chunk, all-out batches, singles
+        for badE in [6 - 1e-9, 12 + 1e-9, 5.0, 13.0, 12.1, float(np.nextafter(6.0, 0)), float(np.nextafter(12.0, 13))]:
+            for nb, pos in ((1, 0), (6, 0), (6, 3), (6, 5), (8200, 0), (8200, 8191), (8200, 8192), (8200, 8199), (6, None)):
+                b = rng.uniform(bmin, bmax, nb)
+                le_ = rng.uniform(6, 12, nb)
+                if pos is None:
+                    le_[:] = badE
+                else:
+                    le_[pos] = badE
+                ctx.count("reject")
+                try:
+                    r = sampler(le_, b, np.full(nb, 0.5))
+                    ctx.violation("reject", f"table v{version}: grid_cdf_sampler accepted logE={badE!r} outside the table ({'every event' if pos is None else f'event {pos} of {nb}'}), z={np.asarray(r).ravel()[pos or 0]!r}", {"version": version, "loge": repr(badE), "n": nb, "pos": pos, "direct": True})
+                except Exception:
+                    pass
         # ---------- input dtypes: whole-number angles (0) and energies, single / half precision ---------
         cases_dt = [
             ("integer beta = 0", np.array([0, 0, 0]), np.array([7.0, 8.0, 10.5]), np.array([0.2, 0.5, 0.9])),
@@ -353,5 +369,5 @@ def run(ctx):
         ctx.require(m)
     return ctx.finish(
         rule="per table version: batches of size {1,2,8191,8192,8193,20000} with energies scattered / one tabulated value / blocks of constant tabulated values (8192-aligned and not) / sorted, in compositions {all in-table, all below-min, all above-max, mixed 25 % / 80 % / 0.2 % above-max}; (logE, beta) from nodes, cell centres, cell edges and interior; u uniform on [0, 1) plus hostile values (0, denormal .. 1-2^-53) and exact node CDF values incl. the first and last of each row; a case is a distinct (version, logE, beta, u)",
-        assumptions=["h5py reads the shipped tables", "F is the piecewise-linear function through the bilinearly blended node values", "'negligible' read as 0 < z <= 1e-5", "rejection demanded only when the out-of-table energy belongs to an event whose angle is looked up"],
+        assumptions=["h5py reads the shipped tables", "F is the piecewise-linear function through the bilinearly blended node values", "'negligible' read as 0 < z <= 1e-5", "rejection of an out-of-table energy is demanded at every angle, for single events, at every batch position, and at the sampler boundary (grid_cdf_sampler) itself"],
     )
